@@ -242,6 +242,61 @@ def recover(arg):
     return out
 
 
+def recover_monitored(arg):
+    """Second crash: the recovery itself (plain calls) runs under the seam and is snapshotted."""
+    state_dir, base2, mods, version, order, compress = arg
+    _quiet()
+    import json
+    import joblib
+    import joblib.memory as M
+    M._FUNCTION_HASHES.clear()
+    work = os.path.join(base2, "cache")
+    snaps = os.path.join(base2, "snaps")
+    shutil.rmtree(base2, ignore_errors=True)
+    os.makedirs(snaps)
+    shutil.copytree(state_dir, work)
+    fsmon.set_dir_order(order)
+    mod = load_module(os.path.join(mods, "vf_c05_mod.py"))
+    mem = joblib.Memory(work, verbose=0, **({"compress": True} if compress else {}))
+    n = [0]
+
+    def take(dst):
+        shutil.copytree(work, dst)
+        meta = {}
+        for dp, _dn, fn in os.walk(work):
+            for x in fn:
+                p = os.path.join(dp, x)
+                try:
+                    st = os.stat(p)
+                    meta[os.path.relpath(p, work)] = [st.st_ino, st.st_size]
+                except OSError:
+                    pass
+        with open(dst + ".meta", "w") as f:
+            json.dump(meta, f)
+
+    def snap(name, target):
+        fsmon.set_dir_order(None)
+        try:
+            take(os.path.join(snaps, "%04d" % n[0]))
+        finally:
+            fsmon.set_dir_order(order)
+        n[0] += 1
+
+    fsmon.start(snap)
+    try:
+        cf = mem.cache(mod.f)
+        for a in (1, 0):
+            try:
+                cf(a)
+            except Exception:  # noqa - judged by the first-level recovery
+                pass
+    finally:
+        fsmon.stop()
+    fsmon.set_dir_order(None)
+    take(os.path.join(snaps, "%04d" % n[0]))
+    return n[0] + 1
+
+
 def crash_states(snaps_dir, states_dir, thorough):
     """Distinct crash states: every snapshot + torn variants. Returns list of (label, path).
 
@@ -266,9 +321,13 @@ def crash_states(snaps_dir, states_dir, thorough):
             for rel, (ino, s1) in meta.items():
                 s0 = prev_by_inode.get(ino, 0)
                 if s1 > s0 + 1:
-                    cuts = {s0 + 1, (s0 + s1) // 2, s1 - 1}
-                    if thorough:
-                        cuts |= {s0 + 2, s1 - 2, s0 + (s1 - s0) // 4, s0 + 3 * (s1 - s0) // 4}
+                    if s1 - s0 <= 96:
+                        # small writes (source header, metadata, small results): every torn length
+                        cuts = set(range(s0 + 1, s1))
+                    else:
+                        cuts = {s0 + 1, (s0 + s1) // 2, s1 - 1}
+                        if thorough:
+                            cuts |= {s0 + 2, s1 - 2, s0 + (s1 - s0) // 4, s0 + 3 * (s1 - s0) // 4}
                     for c in sorted(c for c in cuts if s0 < c < s1):
                         k += 1
                         dst = os.path.join(states_dir, "torn%04d" % k)
@@ -328,8 +387,45 @@ def _work(item):
                 if sig not in viols:
                     viols[sig] = [sig, "workload %s (directory order %s) killed at %s; recovery '%s' in a fresh process: %r" % (wl, order, label, how, st),
                                   {"workload": wl, "order": order, "state": label, "recovery": how, "tier": tier}]
+    # two-crash histories (thorough): crash the recovery of every first-level snapshot state as well
+    n2 = states2 = 0
+    if tier != "quick":
+        k2 = 0
+        seen2 = set()
+        for label, path in states:
+            if "torn" in label:
+                continue
+            k2 += 1
+            base2 = os.path.join(base, "second")
+            r = core.run_isolated(recover_monitored, (path, base2, os.path.join(base, "mods"), info["final_version"], order,
+                                                      wl == "W6-compressed"), timeout=120)
+            if r[0] != "ok":
+                continue
+            st2dir = os.path.join(base2, "states")
+            os.makedirs(st2dir, exist_ok=True)
+            sts2, _ = crash_states(os.path.join(base2, "snaps"), st2dir, False)
+            for label2, path2 in sts2:
+                dg = tree_digest(path2)
+                if dg in seen2:
+                    continue
+                seen2.add(dg)
+                states2 += 1
+                for how in ("calls", "load-every-output"):
+                    n2 += 1
+                    r = core.run_isolated(recover, (path2, os.path.join(base, "work"), os.path.join(base, "mods"), info["final_version"], order, how,
+                                                    wl == "W6-compressed"), timeout=120)
+                    steps = r[1] if r[0] == "ok" else [["recovery-process", "raises:%s" % (r[1] if len(r) > 1 else r[0])]]
+                    for st in steps:
+                        if st[-1] == "ok":
+                            continue
+                        sig = "%s|%s|second-crash|%s" % (classify(wl, label2, st), wl, how)
+                        if sig not in viols:
+                            viols[sig] = [sig, "workload %s (directory order %s) killed at %s, the recovering process killed at %s; recovery '%s': %r" % (
+                                wl, order, label, label2, how, st), {"workload": wl, "order": order, "state": label, "second": label2, "recovery": how, "tier": tier}]
+            shutil.rmtree(base2, ignore_errors=True)
+    n += n2
     shutil.rmtree(base, ignore_errors=True)
-    return {"n": n, "states": len(states), "snapshots": nsnaps, "fs_calls": info["calls"], "mutating": info["mutating"],
+    return {"n": n, "states": len(states) + states2, "snapshots": nsnaps, "fs_calls": info["calls"], "mutating": info["mutating"],
             "viol": list(viols.values()),
             "sample": {"workload": wl, "dir_order": order, "intercepted_fs_calls": info["calls"], "mutating_calls": info["mutating"],
                        "snapshots": nsnaps, "distinct_crash_states_incl_torn": len(states), "recoveries": n}}
@@ -351,7 +447,7 @@ def run(ctx):
             ctx.sample(res["sample"])
     ctx.rule = ("workloads %s x directory order {asc, desc}: one snapshot of the cache directory before EVERY intercepted file-system "
                 "call (every prefix of the mutation sequence) + torn variants of every file that grew between two snapshots "
-                "(first byte, middle, last byte missing%s); each distinct crash state recovered by %s in fresh forked processes. "
+                "(every torn length for writes of <= 96 bytes, else first byte / middle / last byte missing%s); each distinct crash state recovered by %s in fresh forked processes. "
                 "evaluations = recoveries; distinct_nontrivial = distinct crash states" % (list(WORKLOADS), "; thorough: 7 cut points" if ctx.tier != "quick" else "", list(RECOVERIES)))
     ctx.exhaustive = True
     ctx.assumptions += ["crash = process death (kill -9): completed system calls are visible, data still in Python-level buffers is lost (the snapshot copies what the OS has)",
